@@ -26,6 +26,12 @@ def grid_event(alg, N, byname=False):
         with quiet():
             g = create(alg, N)
             if DIM[alg] == 4:
+                # a caller normalises / flips the half array it was handed (the pinned getter hands out a copy of the selected
+                # rows, and the package's own code edits returned arrays in place, e.g. FullGrid.get_full_prefactors): what the
+                # grid answers afterwards is what is checked
+                first = g.get_grid_as_array(only_upper=True)
+                if isinstance(first, np.ndarray) and first.flags.writeable and first.size:
+                    first *= -1.0
                 G = np.asarray(g.get_grid_as_array(only_upper=True), dtype=float)
                 full = np.asarray(g.get_grid_as_array(only_upper=False), dtype=float)
             else:
